@@ -1,15 +1,20 @@
 package sim
 
 import (
+	"bytes"
 	"context"
+	"encoding/json"
 	"errors"
 	"fmt"
+	"reflect"
 
 	apierrors "k8s.io/apimachinery/pkg/api/errors"
 	"k8s.io/apimachinery/pkg/api/meta"
 	"k8s.io/apimachinery/pkg/runtime"
 	"k8s.io/apimachinery/pkg/runtime/schema"
+	"k8s.io/apimachinery/pkg/types"
 	"sigs.k8s.io/controller-runtime/pkg/client"
+	"sigs.k8s.io/controller-runtime/pkg/client/apiutil"
 )
 
 // Fault describes one injected disturbance of the current transition.
@@ -145,9 +150,61 @@ func (c *Client) Patch(ctx context.Context, obj client.Object, patch client.Patc
 	if err := c.pre(true, c.gr(obj), obj.GetName()); err != nil {
 		return err
 	}
+	if c.noopLabelPatch(obj, patch) {
+		// the API server would answer with the unchanged object and emit no event
+		c.post(true, nil)
+		return nil
+	}
 	err := c.inner.Patch(ctx, obj, patch, opts...)
 	c.post(true, err)
 	return err
+}
+
+// noopLabelPatch recognises a merge patch that only sets metadata labels which the stored (typed) object already
+// carries with the same values (the Rollout controller sends one on every reconcile): the result is the stored
+// object, unchanged, which is what the fake client would produce after a JSON round trip.
+func (c *Client) noopLabelPatch(obj client.Object, patch client.Patch) bool {
+	if patch.Type() != types.MergePatchType {
+		return false
+	}
+	data, err := patch.Data(obj)
+	if err != nil || len(data) > 256 {
+		return false
+	}
+	var body struct {
+		Metadata struct {
+			Labels map[string]string `json:"labels"`
+		} `json:"metadata"`
+	}
+	dec := json.NewDecoder(bytes.NewReader(data))
+	dec.DisallowUnknownFields()
+	if dec.Decode(&body) != nil || len(body.Metadata.Labels) == 0 {
+		return false
+	}
+	// only {"metadata":{"labels":{...}}} survives DisallowUnknownFields on this shape
+	var generic map[string]map[string]json.RawMessage
+	if json.Unmarshal(data, &generic) != nil || len(generic) != 1 || len(generic["metadata"]) != 1 {
+		return false
+	}
+	gvk, err := apiutil.GVKForObject(obj, c.store.scheme)
+	if err != nil {
+		return false
+	}
+	gvr, _ := meta.UnsafeGuessKindToResource(gvk)
+	stored, ok := c.store.objs[ObjKey{gvr, obj.GetNamespace(), obj.GetName()}]
+	if !ok || reflect.TypeOf(stored) != reflect.TypeOf(obj) {
+		return false
+	}
+	have := accessor(stored).GetLabels()
+	for k, v := range body.Metadata.Labels {
+		if have[k] != v {
+			return false
+		}
+	}
+	cp := stored.DeepCopyObject()
+	reflect.ValueOf(obj).Elem().Set(reflect.ValueOf(cp).Elem())
+	obj.GetObjectKind().SetGroupVersionKind(gvk)
+	return true
 }
 
 func (c *Client) DeleteAllOf(ctx context.Context, obj client.Object, opts ...client.DeleteAllOfOption) error {
